@@ -19,6 +19,8 @@ CLAIMED = {
          'Coq proof (routing by interval reasoning, frames) + translator + differential correspondence', 'DESIGN.md 7 C10'),
  'C11': ('proof', 'Theorems: big-endian composition, exact-bytes writes, read-back, unaligned faults unchanged, ROM writes rejected and ROM unchanged by any guest write, fetch = data bytes; correspondence on mixed-width histories with a flat byte-array monitor.',
          'Coq proof over the sparse-map memory + differential correspondence + flat-array monitor', 'DESIGN.md 7 C11'),
+ 'C13': ('proof', 'Theorems for all machine states (stack and second-level gate entry word-aligned in RAM, disjoint): Cpu::step maps NoDevice/Read/Write errors to on_exception; exception entry pushes the faulting PC and the PSW (ET 0, ISC 3, condition codes/CM/PM/I/IPL of the fault) at SP, SP+8, new PC/PSW from the gate tables; RETG effect; fault -> entry -> RETG restores PC, SP, NZVC, CM/PM and r0-r10; precision: operand reads never change registers or memories, a failing store stores nothing, faulting AND/OR/XOR/MUL/ALS-shape, MOV and ADD instructions leave all registers (PSW included) and memories unchanged. Correspondence on every instruction class x each operand faulting (unmapped / ROM) through the fault and RETG; independent monitor.',
+         'Coq proof by symbolic execution over the load/store theory + PSW bit-field lemmas + differential correspondence + monitor', 'DESIGN.md 7 C13'),
  'C14': ('proof', 'Status invariant (RxRDY => data and enabled receiver, TxRDY => empty holding register) over all histories of every DUART operation; no phantom data; no lost wake-up (closed form of get_interrupt); no stuck request after drain or disable; correspondence on random register-level histories; monitors.',
          'Coq proof of a DUART invariant over all operation histories + differential correspondence + monitors', 'DESIGN.md 7 C14'),
  'C15': ('proof', 'Theorems: frame = RAM[4*reg, +102400) for every register value (no panic), aligned accesses never straddle the window, dirty = landed-write-since-last-fetch by induction over all histories, invariant reachable; correspondence + independent window/dirty monitor.',
